@@ -377,14 +377,41 @@ def _r8(ctx, pkg):
 CHEMDATA = "naunet/chemistrydata/__init__.py"
 
 
+def _module_helpers_put_back(pkg, file, fn):
+    """a copy of module function `fn` with the plain functions of the same module it was split into put back in place
+    (normalize.expand_helpers); `fn` itself when that fails"""
+    try:
+        import copy
+        from ..normalize import expand_helpers
+        locs = {n.id for n in ast.walk(fn) if isinstance(n, ast.Name) and isinstance(n.ctx, ast.Store)} | {a.arg for a in ast.walk(fn.args) if isinstance(a, ast.arg)}
+
+        def put_back(call):
+            if isinstance(call.func, ast.Name) and call.func.id not in locs:
+                g = pkg.functions.get((file, call.func.id))
+                if g is not None and g is not fn and not any(isinstance(n, (ast.Yield, ast.YieldFrom)) or (isinstance(n, ast.Name) and n.id == fn.name) for n in ast.walk(g)):
+                    return g, None
+            return None
+        return expand_helpers(copy.deepcopy(fn), put_back)
+    except Exception:
+        return fn
+
+
 def _r7(ctx, pkg):
     """Built-in table (last stage of the binding-energy lookup): the key of a record is its first blank-separated token WHOLE
     (the table has neutrals and their anions, `OH` and `OH-`, with different energies), the value float(second token)."""
-    fn = pkg.func(CHEMDATA, "_read_binding_energy")
+    # the reader of the built-in table, by use: the module function whose call is bound to `rate12_binding_energy` at module level
+    reader = "_read_binding_energy"
+    for st in pkg.modules[CHEMDATA].body if CHEMDATA in pkg.modules else ():
+        tg = st.targets[0] if isinstance(st, ast.Assign) and len(st.targets) == 1 else st.target if isinstance(st, ast.AnnAssign) and st.value is not None else None
+        if tg is not None and isinstance(st.value, ast.Call) and isinstance(st.value.func, ast.Name) and (CHEMDATA, st.value.func.id) in pkg.functions and (
+                (isinstance(tg, ast.Name) and tg.id == "rate12_binding_energy") or (isinstance(tg, ast.Tuple) and any(isinstance(e, ast.Name) and e.id == "rate12_binding_energy" for e in tg.elts))):
+            reader = st.value.func.id
+    fn = pkg.func(CHEMDATA, reader)
     if fn is None:
         ctx.missing("R7", "_read_binding_energy", (CHEMDATA, 0), "reader of the built-in binding-energy table vanished")
         return
-    ctx.saw(CHEMDATA, "_read_binding_energy")
+    ctx.saw(CHEMDATA, reader)
+    fn = _module_helpers_put_back(pkg, CHEMDATA, fn)
     fl = Flow(fn, CHEMDATA)
     ret = [simp(f.value) for f in fl.facts if f.kind == "return"]
     acc = ret[0][1] if len(ret) == 1 and ret[0][0] == "acc" else None
@@ -392,7 +419,7 @@ def _r7(ctx, pkg):
         # the reader returns several tables: the one the module binds to `rate12_binding_energy` (by position of the unpacking)
         for st in pkg.modules[CHEMDATA].body:
             if isinstance(st, ast.Assign) and len(st.targets) == 1 and isinstance(st.targets[0], ast.Tuple) and isinstance(st.value, ast.Call) \
-                    and isinstance(st.value.func, ast.Name) and st.value.func.id == "_read_binding_energy" and len(st.targets[0].elts) == len(ret[0][1]):
+                    and isinstance(st.value.func, ast.Name) and st.value.func.id == reader and len(st.targets[0].elts) == len(ret[0][1]):
                 for i, t in enumerate(st.targets[0].elts):
                     if isinstance(t, ast.Name) and t.id == "rate12_binding_energy" and ret[0][1][i][0] == "acc":
                         acc = ret[0][1][i][1]
